@@ -24,3 +24,103 @@ PROPS["C05"] = {
     "level_text": "The whole domain of the property (7 codecs x 256 byte values x 4 decoders, every symbol x every table law, both build profiles) is enumerated completely on the real code and compared with hand-typed tables; within the stated target this is a complete decision, not a sample.",
     "level_note": "Trusts the hand-typed spec tables (self-tested against each other) and that debug-assertions on/off are the only build-profile coordinates that matter.",
 }
+
+PROPS["C13"] = {
+    "parts": [{"kind": "bin", "bin": "c13"}],
+    "exhaustive": True,
+    "rule": "complete enumeration: one case per (codon, symbol offset 0..31, parent head) through STANDARD.to_amino, one per 6-bit pattern through the Amino decoders, one per (DNA sequence, offset) through windows(3)/chunks(3); distinct by coordinates",
+    "bound": {"quick": "64 codons x (32 offsets + 9 headed placements); 64 patterns; every DNA sequence of length <= 5 at 2 offsets; de Bruijn B(4,3) at 32 offsets",
+              "thorough": "as quick with every DNA sequence of length <= 6 and P(n) families at n in {31,32,33,64,65,66,97,130} x 3 offsets"},
+    "assumptions": COMMON_ASSUME + ["NCBI translation table 1 is the 64-letter string typed in bsv/src/spec.rs (TCAG order)"],
+    "technique": "complete enumeration of the finite codon x bit-offset space on the real code against the NCBI table-1 string; bounded-exhaustive sequences for windows/chunks",
+    "level_text": "All 64 codons at all 32 in-word symbol offsets (including the straddling ones) and all 64 amino bit patterns are executed on the real translation code and compared with the NCBI table; the per-codon clause is decided completely, the windows/chunks clause for every sequence up to the stated length.",
+    "level_note": "Trusts the typed NCBI string and the IUPAC nomenclature table; sequences longer than the bound are covered only through the position-wise structure of windows/chunks (C11).",
+}
+
+PROPS["C14"] = {
+    "parts": [{"kind": "bin", "bin": "c14", "runs": [["--opt", "first=amino"], ["--opt", "first=codon"]]}],
+    "exhaustive": True,
+    "rule": "complete enumeration: one case per (IUPAC codon of length 3, slice offset 0..15 [+1 headed placement]) through STANDARD.try_to_amino, one per codon of length 0,1,2 (all) and 4,5,6,16,17 (P(n) family), one per amino symbol through try_to_codon and back; whole run repeated in a fresh process per first-touch order of the two lazy tables",
+    "bound": {"quick": "16^3 codons x 17 placements; all codons of length <= 2; P(n) for n in {4,5,6,16,17}; 21 aminos; 2 first-touch orders x 2 profiles",
+              "thorough": "as quick plus all 16^4 codons of length 4"},
+    "assumptions": COMMON_ASSUME + ["NCBI table 1 and the IUPAC nomenclature as typed in bsv/src/spec.rs; the oracle expands an ambiguous codon to its concrete codons"],
+    "technique": "complete enumeration of all 16^3 ambiguous codons x offsets and all 21 amino symbols on the real code, oracle computed from NCBI table 1; both first-touch orders of the lazy tables in separate processes",
+    "level_text": "Every IUPAC codon (4096) at every slice offset and every amino symbol is run through the real partial translation table and compared with an oracle that expands the codon to concrete codons; soundness, completeness and the reverse direction are decided completely for the standard table.",
+    "level_note": "Trusts the typed NCBI string and IUPAC sets. Error payloads (which codon/amino the error carries) are not compared, only the error kind.",
+}
+
+PROPS["C07"] = {
+    "parts": [{"kind": "bin", "bin": "c07"}],
+    "rule": "E2: every sequence over the whole alphabet up to |alphabet|^n <= bound, and for every length 0..2*spw+2 at every slice bit offset one pattern pair (quick) or the P(n) family (thorough); each content is run as a slice at that offset, as a fresh owned sequence and as an owned sequence copied from an offset slice, through to_rev/to_comp/to_revcomp, the in-place forms on clones, double application and both composition orders; a case is distinct by (codec, length, offset | first symbol)",
+    "bound": {"quick": "all contents with |alphabet|^n <= 1e5; lengths 0..2*spw+2 x all noff offsets x 2 patterns",
+              "thorough": "all contents with |alphabet|^n <= 2e6; lengths 0..2*spw+2 and {3spw-1,3spw,3spw+1,4spw+1} x all offsets x P(n)"},
+    "assumptions": COMMON_ASSUME + ["complement oracle = the codec's own symbol-level complement applied position-wise (symbol tables are decided by C05)",
+        "operations are position-wise separable, so every symbol at every position over two backgrounds distinguishes any per-position/per-value error (coverage argument, DESIGN.md section 2)"],
+    "technique": "bounded-exhaustive enumeration of sequences x bit offsets x lengths on the real code against a list model (stateless exhaustive exploration)",
+    "level_text": "Every content up to the size bound and every (length, bit offset) shape up to two machine words plus two symbols is executed through all twelve forms of the three operations on the real code and compared with list reversal / position-wise complement; involution, composition order and receiver immutability are checked on each.",
+    "level_note": "Sequences longer than the bound are covered only by the separability argument; ReverseMut for SeqSlice is unreachable through the public API (no &mut SeqSlice) and is exercised via to_* only.",
+}
+
+SEP = "operations are position-wise separable, so every symbol at every position over two backgrounds, every length residue and every bit offset distinguishes any per-position/per-value/per-offset error (coverage argument of DESIGN.md section 2, not a proof)"
+
+PROPS["C01"] = {
+    "parts": [{"kind": "bin", "bin": "c01"}],
+    "rule": "E2: (a) every byte string of length <= 2 over all 256 byte values; (b) every string of length <= L over accepted bytes + 6 edge-rejected bytes; (c) for every word-boundary length the P(n) family of valid strings, one rejected byte (whole rejected set) at every position, two rejected bytes at every position pair; each string goes through every parsing entry point. A case is a (codec, first byte | length) block; inputs_executed counts the strings",
+    "bound": {"quick": "len<=2 over 256 bytes; len<=L with |charset|^L <= 1e7 (L=4..7 by codec); lengths WB(2 words)",
+              "thorough": "len<=2 over 256 bytes; |charset|^L <= 4e8 (L=5..8); lengths WB(3 words) and every length 0..128/BITS+2"},
+    "assumptions": COMMON_ASSUME + ["accepted bytes, canonical display characters and codes per codec are as typed in bsv/src/spec.rs", SEP],
+    "technique": "bounded-exhaustive enumeration of byte strings x codecs x entry points on the real parser/printer against hand-typed alphabet tables (stateless exhaustive exploration)",
+    "level_text": "All byte strings up to the stated lengths (every byte value in the first two positions, every mix of accepted and rejected bytes up to L, every position of a bad byte at every word-boundary length) are parsed by the real code through all eleven entry points and compared with the table oracle: acceptance, first offending byte, length, every symbol, display, display->parse->display.",
+    "level_note": "Strings longer than 3 words + 1 symbol are not enumerated; the spec tables are trusted (self-tested).",
+}
+
+PROPS["C03"] = {
+    "parts": [{"kind": "bin", "bin": "c03"}],
+    "rule": "E2: parents of every length in 0..10 and WB(c), as owned Seq, slice at every bit offset of a flanked parent, slice of an offset-copied parent, SeqArray built from model words, Kmer deref; for every in-bounds (a,b) all seven range forms, get/nth/single index, nested re-slicing (depth 3 for n<=10, else 2), every out-of-bounds form just past the end (must panic / return None). A case is one parent (codec, kind, length, offset)",
+    "bound": {"quick": "n in 0..10 + WB(2 words); all noff offsets + 9 headed placements; (a,b) complete for n<=12 else within 2 of an end or word boundary; 22 array lengths; reduced K set",
+              "thorough": "n in 0..10 + WB(3 words); 2 patterns; (a,b) complete for offsets 0,1; every K"},
+    "assumptions": COMMON_ASSUME + [SEP, "out-of-bounds means just past the end (n, n+1, n+2); reversed ranges are outside the property"],
+    "technique": "bounded-exhaustive enumeration of parents x range forms x (a,b) x nesting on the real Index impls against a list model",
+    "level_text": "Every range form on every in-bounds (a,b) and every out-of-bounds form just past the end is executed on real parents of every kind, length residue and bit offset up to 2-3 machine words, and the returned slice is compared symbol by symbol with the list model; refusal is checked with catch_unwind.",
+    "level_note": "Parents longer than 3 words and nesting deeper than 3 are outside the bound.",
+}
+
+PROPS["C11"] = {
+    "parts": [{"kind": "bin", "bin": "c11"}],
+    "rule": "E2: for every length in 0..12 and WB(c) at every slice bit offset (plus headed parents): iter, into_iter on &SeqSlice/&Seq, rev_iter, chain with a second slice at an independent offset, windows(w) and chunks(w) for every w in 1..=n+2, collection of chunks into Vec<Seq>; all drains capped, exhausted iterators must stay exhausted. A case is one (codec, length, offset) shape",
+    "bound": {"quick": "n in 0..12 + WB(2 words), all offsets, w in 1..=n+2", "thorough": "n in 0..12 + WB(3 words), all offsets, w in 1..=n+2"},
+    "assumptions": COMMON_ASSUME + [SEP],
+    "technique": "bounded-exhaustive enumeration of (length, offset, width) on the real iterators against a list model, with capped drains for termination",
+    "level_text": "Every iterator is drained on every shape up to 2-3 machine words at every bit offset and every width 1..n+2, item by item against the list model, with a cap that turns non-termination into a reported violation.",
+    "level_note": "Lengths beyond the bound are not enumerated; iterator behaviour is uniform in length beyond word boundaries by the separability argument.",
+}
+
+PROPS["C12"] = {
+    "parts": [{"kind": "bin", "bin": "c12"}],
+    "rule": "E2: all 256 symbol pairs at every position of sequences of the listed lengths with operands at independent slice offsets (16 x 16), through | and & on slices (both orders) and bit_or/bit_and on fresh and offset-copied owned operands; contains for all pairs at length 1, all 65536 pairs of pairs at length 2, one-position families at longer lengths and all receivers, every length mismatch up to 5; symbol-level from(Dna) and complement. A case is one (length, offset pair) block",
+    "bound": {"quick": "n in {1,2,3,15,16,17} for | and &, {1,2,3,15,16,17,33} for contains; 16x16 offsets", "thorough": "n up to 48 for | and &"},
+    "assumptions": COMMON_ASSUME + ["IUPAC letters denote the nucleotide sets of the IUPAC nomenclature table typed in bsv/src/spec.rs", SEP],
+    "technique": "bounded-exhaustive enumeration of symbol pairs x positions x independent bit offsets on the real bitwise operators against set union/intersection/subset",
+    "level_text": "Every pair of IUPAC symbols at every position and every pair of operand alignments is executed through all forms of the operators and compared with set algebra on the nomenclature table; contains is decided exhaustively for lengths 1 and 2 and by one-position families beyond.",
+    "level_note": "Longer sequences are covered by separability only.",
+}
+
+PROPS["C19"] = {
+    "parts": [{"kind": "bin", "bin": "c19"}],
+    "rule": "E2: conversions of every DNA sequence up to 4^n contents, every length 0..66 at every offset, static arrays; all 256 text patterns -> dna; trimming of every string of length <= l over {2 accepted, 2 rejected} bytes and of every bad^i good^j bad^k good^l bad^m with run lengths in {0,1,2,spw-1,spw,spw+1}, all 7 codecs",
+    "bound": {"quick": "DNA contents n<=7; trim mixes l<=6; 6^5 run shapes per codec", "thorough": "DNA contents n<=10 and P(n) per shape; trim mixes l<=8 with 3 byte choices"},
+    "assumptions": COMMON_ASSUME + ["accepted bytes per codec as typed in bsv/src/spec.rs", SEP],
+    "technique": "bounded-exhaustive enumeration of inputs on the real conversion/trimming code against a table oracle and a differential oracle (strict parse of the span)",
+    "level_text": "Every conversion entry point is run on every DNA content/shape in the bound and compared by letters; trimming is run on every accepted/rejected mix up to the length bound and on every run-shape crossing word boundaries, against both the table oracle and the strict parser applied to the span.",
+    "level_note": "Trusts the spec table for what counts as an acceptable byte.",
+}
+
+PROPS["C20"] = {
+    "parts": [{"kind": "bin", "bin": "c20"}],
+    "rule": "E2: all symbols of both masked codecs (complete) through mask/unmask and their laws; every sequence up to |alphabet|^n <= bound; P(n) at every length 0..2*spw+2 (thorough 4*spw+2) and every slice offset (5-bit: all 64 offsets, so every straddling position is hit by every symbol), through to_mask/to_unmask, in-place forms on fresh and offset-copied clones, twice, unmask∘mask, commutation with rev/comp/revcomp",
+    "bound": {"quick": "|alphabet|^n <= 4e4; lengths 0..2*spw+2 x all offsets x P(n)", "thorough": "|alphabet|^n <= 1.2e6; lengths 0..4*spw+2"},
+    "assumptions": COMMON_ASSUME + ["upper/lower twins as typed in bsv/src/spec.rs; '?' and '!' of the 4-bit codec are left open by the property", SEP],
+    "technique": "complete enumeration of symbols plus bounded-exhaustive enumeration of sequences x bit offsets on the real masking code against case-twin tables",
+    "level_text": "The symbol-level clause is decided completely (all symbols, all laws); the sequence-level clause for every symbol at every position of every length up to two words at every bit offset, including all 5-bit symbols straddling a word boundary.",
+    "level_note": "Trusts the twin table; longer sequences by separability.",
+}
